@@ -202,3 +202,20 @@ def register(claim):
         'rests on vmap semantics plus R7.3.',
         'relational (batched vs solo) algebraic value numbering + lifting-site and effect rules',
         'DESIGN.md §3 C07')
+
+  claim('C01', 'other',
+        'Static equivalence with an independent reference implementation: the AST of '
+        'kinematics.forward (with the real scan.py regrouping, stacked-joint accumulation, anchor '
+        'handling and the world() recursion) is abstractly interpreted on symbolic kinematic forests '
+        '(world-attached and free roots, chains, branches, sibling orders, 1-3 joint stacks with '
+        'non-orthogonal axes, rotated bodies, offset anchors) and compared with reference kinematics '
+        'written from MuJoCo\'s definition (own quaternion algebra); link positions and orientations '
+        'for every link, world linear and angular velocities for links attached by free / single '
+        'hinge / single slide joints at the link origin.  Equality of the rational functions of all '
+        'model parameters, q and qd is decided by random interpretation in GF(2^61-1) with unit '
+        'quaternions / axes by construction.',
+        'Trusted: python ast, AVN interpreter, reference kinematics braxlint/refkin.py, normalize '
+        'contract.  The MuJoCo binary is not run; velocities of stacked / offset-anchor links are the '
+        'documented upstream limitation and are not claimed.',
+        'algebraic value numbering vs independent reference kinematics, decided by random interpretation',
+        'DESIGN.md §3 C01')
